@@ -116,6 +116,31 @@ def gen_cases(tier, seed):
                         if version:
                             kw['version'] = version
                         cases.append(common.mk(with_last(n), tag='multi-boundary', b=[str(v), lv, 'multi' + ('-eci' if eci else ''), 'fit' if n == best else 'over'], **kw))
+    # several Hanzi segments (each carries its own 4 bit subset indicator) separated by another mode; the tuple form with
+    # the ISO mode indicator as mode constant is the only way to give one part a mode of its own
+    for v in (versions if tier == 'thorough' else [1, 2, 5, 9, 10, 27]):
+        for lv in oracle.LEVELS:
+            k = rng.randint(2, 3)
+            head = []
+            for i in range(k - 1):
+                head.append(('汉' * rng.randint(1, 3), 13))
+                head.append(gen.content_for_bits(rng.choice(['numeric', 'byte']), rng.randint(1, 3)))
+            cap = oracle.capacity(v, lv)
+            best = None
+            for n in range(1, 2000):
+                segs = oracle.segmentations(oracle.spec_parts(head + [('汉' * n, 13)]), False)
+                c = max(oracle.bits_of(v, s) or 10 ** 9 for s in segs)
+                if c > cap:
+                    break
+                best = n
+            if best is None:
+                continue
+            for n in (best, best + 1):
+                for version in (None, v):
+                    kw = {'error': lv, 'micro': False}
+                    if version:
+                        kw['version'] = version
+                    cases.append(common.mk(head + [('汉' * n, 13)], tag='multi-hanzi', b=[str(v), lv, 'multi-hanzi', 'fit' if n == best else 'over'], **kw))
     # two adjacent parts of the same mode that cannot be concatenated at bit level (first part off the group boundary): the
     # encoder has to keep two segments and must budget two headers
     for v in (versions if tier == 'thorough' else [1, 2, 4, 9, 10, 26, 27]):
@@ -138,6 +163,26 @@ def gen_cases(tier, seed):
                             kw['version'] = version
                         cases.append(common.mk([head, gen.content_for_bits(mode, n)], tag='same-mode-two-segments',
                                                b=[str(v), lv, 'two-' + mode, 'fit' if n == best else 'over'], **kw))
+    # many short segments of alternating modes: every segment costs more header bits in a larger version, so content that
+    # fits a Micro (or small) symbol need not fit the next ones; automatic choice and requested versions
+    for trial in range(160 if tier == 'quick' else 3000):
+        k = rng.randint(4, 12)
+        modes = []
+        for i in range(k):
+            m = rng.choice(['numeric', 'alphanumeric', 'byte'])
+            while modes and m == modes[-1]:
+                m = rng.choice(['numeric', 'alphanumeric', 'byte'])
+            modes.append(m)
+        parts = [gen.content_for_bits(m, rng.choice([1, 1, 2, 3])) for m in modes]
+        kw = {}
+        if rng.random() < 0.6:
+            kw['error'] = rng.choice(['L', 'M', 'Q'])
+        r = rng.random()
+        if r < 0.45:
+            kw['version'] = rng.choice(['M3', 'M4', 1, 1, 2, 2, 3])
+        elif r < 0.6:
+            kw['micro'] = rng.choice([True, False])
+        cases.append(common.mk(parts, tag='many-segments', **kw))
     # random lengths, all residues, multi-part
     n_rand = 600 if tier == 'quick' else 8000
     for _ in range(n_rand):
